@@ -37,7 +37,7 @@ PROPS = {
                       "failing parses of one- and multi-unit sources enumerated against the table registry (tables of earlier units remain: known finding)",
                 trusted=TRUSTED,
                 explanation="[P] T1-T6, U8a, F3 over ghost scope stack tied to _current_scope/_parent by REP; rule-call protocol G3 assumed for callees",
-                enum=["enum_registries.py --only C09", ("enum_frame.py", ["frame.inventory", "frame.scope_calls"]),
+                enum=["enum_registries.py --only C09", "bounded_trees.py --only C09", ("enum_frame.py", ["frame.inventory", "frame.scope_calls"]),
                       ("enum_block_table.py", ["F12.table#start", "F12.table#flags", "F12.table#labelled"])],
                 witnesses=["c09_system_exit_leaves_the_scope_open", "c09_internal_syntax_error_leaves_scope", "c09_main_program0_leaves_scope", "c09_failing_parse_removes_existing_table",
                            "c09_tables_of_earlier_units_remain_after_failure"]),
